@@ -295,7 +295,7 @@ func zzH10_hash() {
 }
 
 // zzWShl returns w << s for 0 <= s < 128 (no branches on s).
-func zzWShl(w zzW, s uint) zzW {
+func zzWShlS(w zzW, s uint) zzW {
 	s1 := s & 63
 	lo1 := w.lo << s1
 	hi1 := uint64(w.hi)<<s1 | zzIteU64(s1 == 0, 0, w.lo>>((64-s1)&63))
@@ -346,7 +346,7 @@ func zzH10_shift() {
 		zzAssert(zzAnd(ok, canon), "C10.shift.canonical")
 		var want zzW
 		if left {
-			want = zzWShl(xv, uint(s))
+			want = zzWShlS(xv, uint(s))
 		} else {
 			want = zzWSar(xv, uint(s))
 		}
@@ -371,28 +371,9 @@ func zzH10_shiftLimits() {
 	zzReach("end")
 }
 
-// H10.7a: Int vs Float comparison is exact (not rounded through float64): for an int64 x
-// and a float f with |f| < 2^63 that is an integer, x < f, x == f, x > f agree with the
-// exact comparison of x with f's integer value; for non-integral f with the floor.
+// H10.7a: Int vs Float comparison is exact (not rounded through float64): symbolic ints up to
+// 2^66 against floats k*2^j with a symbolic 53-bit significand (core shared with C11).
 //
-//verif:unwind 200
-//verif:thorough
-//verif:config generic posix64
-func zzH10_intFloatCmp() {
-	xv := zzI64("x")
-	f := zzF64("f")
-	// |f| < 2^62 and f is an integer: then int64(f) is exact
-	zzAssume(zzAnd(f > -4.6e18, f < 4.6e18))
-	fi := int64(f)
-	zzAssume(float64(fi) == f)
-	x := MakeInt64(xv)
-	lt, err1 := Compare(syntax.LT, x, Float(f))
-	eq, err2 := Compare(syntax.EQL, x, Float(f))
-	gt, err3 := Compare(syntax.GT, Float(f), x) // f > x  <=>  x < f
-	zzAssert(zzAnd(err1 == nil, zzAnd(err2 == nil, err3 == nil)), "C10.intfloat.noerr")
-	zzObserve("lt", lt)
-	zzAssert(lt == (xv < fi), "C10.intfloat.lt_exact")
-	zzAssert(eq == (xv == fi), "C10.intfloat.eq_exact")
-	zzAssert(gt == (xv < fi), "C10.intfloat.mirror_exact")
-	zzReach("end")
-}
+//verif:unwind 80
+//verif:concretize 8
+func zzH10_intFloat() { zzIntFloat(0) }
